@@ -261,12 +261,17 @@ fn law_jobs(seed: u64) -> Vec<Job> {
                         let mut winner_id = vec![0u64; n];
                         let mut oversampled = 0u64;
                         let other_pop = pop_of(&(0..(n + 5) as i64).collect::<Vec<_>>());
-                        for _ in 0..trials {
+                        let (mut prev_key, mut same_pairs) = (None::<i64>, 0u64);
+                        for trial in 0..trials {
                             if alternating {
                                 let _ = t.select(&other_pop, &mut rng).map(|w| w.id).ok();
                                 take_compared();
                             }
                             let (id, s) = draw(&t, &pop, k, &mut rng)?;
+                            if trial % 2 == 1 && prev_key == Some(pop[id as usize].key) {
+                                same_pairs += 1;
+                            }
+                            prev_key = Some(pop[id as usize].key);
                             if s.len() == k {
                                 *subset_counts.entry(s).or_default() += 1;
                             } else {
@@ -298,6 +303,7 @@ fn law_jobs(seed: u64) -> Vec<Job> {
                             let best = s.iter().map(|i| keys2[*i as usize]).max().unwrap_or(0);
                             *law.entry(best).or_default() += 1.0 / c;
                         }
+                        let p_same: f64 = law.values().map(|p| p * p).sum();
                         for (key, p) in law {
                             stats.push(Stat::new(
                                 "Tournament/winner-law",
@@ -307,6 +313,8 @@ fn law_jobs(seed: u64) -> Vec<Job> {
                                 p.min(1.0),
                             ));
                         }
+                        // successive tournaments are independent
+                        stats.push(Stat::new("Tournament/successive-tournaments-not-independent", format!("{name}: two successive winners have the same key"), same_pairs, trials / 2, p_same.min(1.0)));
                         if k == 1 {
                             for (i, w) in winner_id.iter().enumerate() {
                                 stats.push(Stat::new("Tournament/size-1-not-uniform", format!("{name}: individual {i} chosen"), *w, trials, 1.0 / n as f64));
